@@ -34,6 +34,7 @@ from .api import amend
 from .asyncio import wait_for_readable_fd
 from .exceptions import RunError
 from .extapi import get_local_import_paths
+from .hash import FileHash
 from .outcome import ChildOutcome, ResourceUsage
 from .step import Step
 from .tracebacks import print_step_traceback
@@ -296,6 +297,13 @@ class Run:
 
     inp_digest: bytes = attrs.field(init=False, default=b"")
     """The input digest, which some steps may use to decide whether cached results are valid."""
+
+    start_inp_hashes: dict[str, FileHash] = attrs.field(init=False, factory=dict)
+    """The hashes of the inputs as they were verified on disk right before the command started.
+
+    The comparison after the command uses these instead of the hashes stored in the workflow,
+    which another step may have updated in the meantime after noticing the same change.
+    """
 
     out_missing: list[str] = attrs.field(init=False, factory=list)
     """List of expected output files that were not created."""
